@@ -105,8 +105,25 @@ func (e *Eval) compile(node ast.Node) error {
 		}
 
 		// sort them
+		//
+		// Keys of different types can print alike - 1, 1.0 and "1" -
+		// and a key might be given twice, so we break ties by the
+		// type of the key and then by the value.  Otherwise the
+		// program we generate, and the entry which survives, would
+		// depend upon the iteration-order of the map above.
 		sort.Slice(keys, func(i, j int) bool {
-			return keys[i].String() < keys[j].String()
+			a, b := keys[i], keys[j]
+			if a.String() != b.String() {
+				return a.String() < b.String()
+			}
+			if ta, tb := fmt.Sprintf("%T", a), fmt.Sprintf("%T", b); ta != tb {
+				return ta < tb
+			}
+			va, vb := node.Pairs[a], node.Pairs[b]
+			if va.String() != vb.String() {
+				return va.String() < vb.String()
+			}
+			return fmt.Sprintf("%T", va) < fmt.Sprintf("%T", vb)
 		})
 
 		// for each key + value compile them
